@@ -193,7 +193,7 @@ impl Property for C08 {
     const ID: &'static str = "C08";
 
     fn rule() -> String {
-        "proptest-generated insertion sequences built from runs of tiny contents (4095 fill a cluster, raw with hint No / compressed with hint Yes) and contents larger than half a cluster (one compressed cluster each), giving 3..60 clusters mixing raw and compressed; each sequence is created 4-6 times with different (perturbation plan, visible CPU count) pairs: plans inject seeded delays inside the public Progress callbacks (main thread at cluster opening, compression workers at handle_cluster, writer thread at handle_cluster_written): none / uniform random {0, yield, 100us, 400us, 2ms} / first compressed cluster slowest / writer slower than all workers / workers finish in reverse order / slow main thread; CPU counts 1..15 through sched_setaffinity (=> 1..14 workers, queue limits 2..28, both shorter and longer than the number of queued clusters). Oracle (metamorphic + model): every run terminates, every address returned resolves to its own bytes in a fresh reader, count and check() are right, the independent decoder finds every cluster inside the file and non-overlapping; addresses are identical across runs. Non-trivial = at least two runs of the case wrote their clusters to the file in different orders (observed through handle_cluster_written); distinct by (sequence shape, number of distinct orders).".into()
+        "proptest-generated insertion sequences built from runs of tiny contents (4095 fill a cluster, raw with hint No / compressed with hint Yes) and contents larger than half a cluster (one compressed cluster each), giving 3..60 clusters mixing raw and compressed; each sequence is created 4-6 times with different (perturbation plan, visible CPU count) pairs: plans inject seeded delays inside the public Progress callbacks (main thread at cluster opening, compression workers at handle_cluster, writer thread at handle_cluster_written): none / uniform random {0, yield, 100us, 400us, 2ms} / first compressed cluster slowest / writer slower than all workers / workers finish in reverse order / slow main thread; CPU counts 1..15 through sched_setaffinity (=> 1..14 workers, queue limits 2..28, both shorter and longer than the number of queued clusters). Oracle (metamorphic + model): every run terminates, every address returned resolves to its own bytes in a fresh reader, count and check() are right, the independent decoder finds every cluster inside the file and non-overlapping; addresses are identical across runs. Non-trivial = at least two runs of the case wrote their clusters to the file in different orders (observed through handle_cluster_written); distinct by (sequence shape, number of distinct orders). In half of the cases the first content of every segment / cluster is handed over as a file (InputFile), the others from memory (the writer copies the two kinds through different paths).".into()
     }
 
     fn assumptions() -> Vec<String> {
